@@ -128,6 +128,7 @@ func (r *runner) runRace(rp Replay, stream string) ([]Case, error) {
 		}
 	}
 	stmt := stmtOf(vc, p, false)
+	r.quiesce()
 	_, xerr := r.exec(stmt)
 	if ps.Hold == 1 {
 		r.srv.TIndex.Release(before.Src)
@@ -173,6 +174,7 @@ func (r *runner) runRace(rp Replay, stream string) ([]Case, error) {
 	case !after.Exists && ps.Hold != 0:
 		viol = &Violation{Class: "dropped-while-held", Detail: stmt + ": the partition was dropped while somebody held it"}
 	}
+	r.quiesce()
 	r.srv.Exec(fmt.Sprintf("TRUNCATE vcase=%d MAXDBSIZE 0", vc))
 	rp.P = &p
 	rp.Stmt = stmt
